@@ -65,7 +65,8 @@ class error_999_visitor(pyx12.error_visitor.error_visitor):
         self.isa_control_num = ('%s%s' % (time.strftime('%y%m%d'),
                                           time.strftime('%H%M')))[1:]
         self.gs_control_num = '%i' % (random.randint(10000000, 999999999))
-        icvn = seg.get_value('ISA12')
+        # a 999 is a 5010 transaction, whatever the version of the last interchange of the input
+        icvn = '00501'
         isa_seg = pyx12.segment.Segment('ISA*00*          *00*          ',
                                         self.seg_term, self.ele_term, self.subele_term)
         isa_seg.set('05', self._echo(seg.get_value('ISA07'), 2))
